@@ -167,6 +167,10 @@ def impl_oracle(c):
     """Implementation-only reading of the property on one case: (key, text) or None."""
     o = c["obs"]
     if o.get("crash"):
+        if o["crash"].startswith("panic"):
+            return ("panic:hello", "HelloInfo (or a Read after it) panicked - it must return an error or a name; in the proxy the "
+                    "connection goroutine has no recover, so the whole process ends: %s [%s; %d bytes]"
+                    % (o["crash"][:200], c.get("desc", ""), c["len"]))
         return ("crash", "HelloInfo/Read crashed: %s" % o["crash"][:200])
     if o.get("pulled", 0) > 5 + 65535:
         return ("unbounded-read", "HelloInfo pulled %d bytes from the connection" % o["pulled"])
@@ -193,7 +197,7 @@ def impl_oracle(c):
             return ("wrong-info", "reported (%s, %d, %s) for a hello that says (%s, %d, %s)" % (
                 bytes.fromhex(o.get("name", "")), o.get("count", 0), bytes.fromhex(o.get("first", "")),
                 bytes.fromhex(w["name"]), w["count"], bytes.fromhex(w["first"])))
-    if c["stream"] in ("nontls", "oversize", "malformed-synth", "fragmented"):
+    if c["stream"] in ("nontls", "oversize", "malformed-synth", "fragmented", "short-record"):
         if o.get("kind") == "ok" and o.get("name"):
             return ("name-from-bad-input", "input that is not a valid single-record hello gave the name %s"
                     % bytes.fromhex(o["name"]))
@@ -231,7 +235,7 @@ def run(ck):
         resource.setrlimit(resource.RLIMIT_STACK, (resource.RLIM_INFINITY, resource.RLIM_INFINITY))
     except Exception:
         pass
-    ncases = 740 if not ck.thorough else 13500
+    ncases = 790 if not ck.thorough else 13550
     ck.gen()
     built = ck.coq_make(MODEL + PROOFS, clean=ck.thorough)
     ck.obligations = ck.count_statements(STATEMENT_FILES)
